@@ -1122,6 +1122,21 @@ func (u *Unit) usePred(pr *Pred) {
 	if u.declFuns[pr.Name] {
 		return
 	}
+	// parameters written seq[<type key>] are sequences of that Go type
+	for i, srt := range pr.Sorts {
+		if strings.HasPrefix(srt, "seq[") && strings.HasSuffix(srt, "]") {
+			t := u.eng.typeByKey(srt[4 : len(srt)-1])
+			if t == nil {
+				panic(specError{"unknown element type in " + srt})
+			}
+			if u.seqElemTypes == nil {
+				u.seqElemTypes = map[string]types.Type{}
+			}
+			u.seqElemTypes[pr.Name+"/"+pr.Params[i]] = t
+			pr = &Pred{Ret: pr.Ret, Name: pr.Name, Params: pr.Params, Sorts: append([]string(nil), pr.Sorts...), Body: pr.Body, Text: pr.Text, Where: pr.Where}
+			pr.Sorts[i] = arrSort("Int", u.so.sortOf(t))
+		}
+	}
 	u.declFun(pr.Name, "("+strings.Join(pr.Sorts, " ")+") "+pr.Ret)
 	env := u.newEnv(nil)
 	env.noHeap = true
@@ -1136,6 +1151,8 @@ func (u *Unit) usePred(pr *Pred) {
 			ty = intT
 		} else if strings.HasPrefix(pr.Sorts[i], "(Array Int Int") {
 			ty = &seqType{elem: types.Typ[types.Uint8]}
+		} else if et := u.seqElemTypes[pr.Name+"/"+p]; et != nil {
+			ty = &seqType{elem: et}
 		}
 		env.vars[p] = Val{T: bn, Ty: ty, S: pr.Sorts[i]}
 	}
